@@ -1,452 +1,12 @@
-(** C04: the round trip with the parser's own fuel: [parse_tokens (raw t) = CExpr (ast t)]. *)
+(** C04: the round trip with the fuel [compile] itself uses.  The parse of a rendered tree is
+    established for all sufficiently large fuel (ParserRoundtrip); more fuel never changes an
+    answer (ParserMono) and the fuel of [parse_tokens] is never exhausted (ParserTotal), so it
+    is the answer of [parse_tokens]. *)
 From Coq Require Import String Ascii.
 From Cel.Model Require Import Surface.
-From Cel.Proofs Require Import ParserRoundtrip.
-From Coq Require Import Lia Arith.
-Open Scope nat_scope.
+From Cel.Proofs Require Import ParserRoundtrip ParserTotal ParserMono.
 
-Definition evn {A} (n : nat) (p : nat -> pres A) (r : pres A) : Prop := forall f, n <= f -> p f = r.
-Lemma evn_le {A} n m (p : nat -> pres A) r : n <= m -> evn n p r -> evn m p r.
-Proof. intros H E f Hf. apply E. lia. Qed.
-
-Lemma bmember_id x rest : stops 7 rest -> evn 2 (fun f => p_member f (TIdent x :: rest)) (POk (EIdent x) rest).
-Proof.
-  intros Hs [|[|f]] Hf; try lia. rewrite u_member, prim_id by exact Hs. now apply postfix_stop.
-Qed.
-
-Lemma bmember_paren ts e rest n : stops 7 rest ->
-  evn n (fun f => p_expr f (ts ++ TRParen :: rest)) (POk e (TRParen :: rest)) ->
-  evn (S (S n)) (fun f => p_member f (TLParen :: ts ++ TRParen :: rest)) (POk e rest).
-Proof.
-  intros Hs H [|[|f]] Hf; try lia. rewrite u_member, u_prim_paren, H by lia. now apply postfix_stop.
-Qed.
-
-Lemma bpass_unary t0 ts e rest n :
-  match t0 with TBang | TMinus => False | _ => True end ->
-  evn n (fun f => p_member f ((t0 :: ts) ++ rest)) (POk e rest) ->
-  evn (S n) (fun f => p_unary f ((t0 :: ts) ++ rest)) (POk e rest).
-Proof.
-  intros Hh H [|f] Hf; [lia|].
-  replace (p_unary (S f) ((t0 :: ts) ++ rest)) with (p_member f ((t0 :: ts) ++ rest)); [apply H; lia|].
-  cbn [app]. destruct t0; try contradiction; reflexivity.
-Qed.
-Lemma bpass_mul ts e rest n : stops 5 rest ->
-  evn n (fun f => p_unary f (ts ++ rest)) (POk e rest) -> evn (S (S n)) (fun f => p_mul f (ts ++ rest)) (POk e rest).
-Proof. intros Hs H [|[|f]] Hf; try lia. rewrite u_mul, H by lia. now apply mul_loop_stop. Qed.
-Lemma bpass_add ts e rest n : stops 4 rest ->
-  evn n (fun f => p_mul f (ts ++ rest)) (POk e rest) -> evn (S (S n)) (fun f => p_add f (ts ++ rest)) (POk e rest).
-Proof. intros Hs H [|[|f]] Hf; try lia. rewrite u_add, H by lia. now apply add_loop_stop. Qed.
-Lemma bpass_rel ts e rest n : stops 3 rest ->
-  evn n (fun f => p_add f (ts ++ rest)) (POk e rest) -> evn (S (S n)) (fun f => p_rel f (ts ++ rest)) (POk e rest).
-Proof. intros Hs H [|[|f]] Hf; try lia. rewrite u_rel, H by lia. now apply rel_loop_stop. Qed.
-Lemma bpass_and ts e rest n : stops 2 rest ->
-  evn n (fun f => p_rel f (ts ++ rest)) (POk e rest) -> evn (S (S n)) (fun f => p_and f (ts ++ rest)) (POk e rest).
-Proof. intros Hs H [|[|f]] Hf; try lia. rewrite u_and, H by lia. now rewrite and_loop_stop. Qed.
-Lemma bpass_or ts e rest n : stops 1 rest ->
-  evn n (fun f => p_and f (ts ++ rest)) (POk e rest) -> evn (S (S n)) (fun f => p_or f (ts ++ rest)) (POk e rest).
-Proof. intros Hs H [|[|f]] Hf; try lia. rewrite u_or, H by lia. now rewrite or_loop_stop. Qed.
-Lemma bpass_expr ts e rest n : stops 0 rest ->
-  evn n (fun f => p_or f (ts ++ rest)) (POk e rest) -> evn (S n) (fun f => p_expr f (ts ++ rest)) (POk e rest).
-Proof.
-  intros Hs H [|f] Hf; try lia. rewrite u_expr, H by lia.
-  destruct rest as [|t r]; [reflexivity|]. destruct Hs as [_ Hs]. destruct t; cbn in Hs; try lia; reflexivity.
-Qed.
-
-(** one level down costs at most two units of fuel *)
-Lemma down1 l ts e rest n : l < 7 -> (l = 6 -> plain_head ts) -> stops l rest ->
-  evn n (fun f => p_at (S l) f (ts ++ rest)) (POk e rest) -> evn (n + 2) (fun f => p_at l f (ts ++ rest)) (POk e rest).
-Proof.
-  intros Hl Hh Hs H. destruct l as [|[|[|[|[|[|[|l]]]]]]]; cbn [p_at] in *; try lia.
-  - apply (evn_le (S n)); [lia|]. now apply bpass_expr.
-  - apply (evn_le (S (S n))); [lia|]. now apply bpass_or.
-  - apply (evn_le (S (S n))); [lia|]. now apply bpass_and.
-  - apply (evn_le (S (S n))); [lia|]. now apply bpass_rel.
-  - apply (evn_le (S (S n))); [lia|]. now apply bpass_add.
-  - apply (evn_le (S (S n))); [lia|]. now apply bpass_mul.
-  - specialize (Hh eq_refl). destruct ts as [|t0 ts']; [contradiction|].
-    apply (evn_le (S n)); [lia|]. apply bpass_unary; [destruct t0; try contradiction; exact I|exact H].
-Qed.
-
-Lemma bdown d : forall p l ts e rest n, p = l + d -> p <= 7 -> (p = 7 -> l <= 6 -> plain_head ts) -> stops l rest ->
-  evn n (fun f => p_at p f (ts ++ rest)) (POk e rest) -> evn (n + 2 * d) (fun f => p_at l f (ts ++ rest)) (POk e rest).
-Proof.
-  induction d as [|d IH]; intros p l ts e rest n Hp Hp7 Hh Hs H.
-  - replace l with p by lia. now rewrite Nat.add_0_r.
-  - replace (n + 2 * S d) with ((n + 2 * d) + 2) by lia. apply down1; [lia| |exact Hs|].
-    + intros ->. apply Hh; lia.
-    + apply (IH p (S l) ts e rest n); [lia|exact Hp7| |eapply stops_le; [|exact Hs]; lia|exact H].
-      intros E7 E6. apply Hh; lia.
-Qed.
-
-(** ** Fuel bounds *)
-Definition Bof (own_u prec_u l : nat) : nat :=
-  if l <=? prec_u then own_u + 2 * (prec_u - l) else own_u + 2 * prec_u + 2 + 2 * (7 - l).
-
-Fixpoint own (t : st) : nat :=
-  let B l u := Bof (own u) (prec u) l in
-  match t with
-  | SId _ => 2
-  | SParen a => S (S (B 0 a))
-  | SNot _ a | SNeg _ a => S (B 7 a)
-  | SMul _ a b => S ((match a with SMul _ _ _ => pred (own a) | _ => S (B 6 a) end) + S (B 6 b))
-  | SAdd _ a b => S ((match a with SAdd _ _ _ => pred (own a) | _ => S (B 5 a) end) + S (B 5 b))
-  | SRel _ a b => S ((match a with SRel _ _ _ => pred (own a) | _ => S (B 4 a) end) + S (B 4 b))
-  | SAnd a rs => S (B 3 a + (fix go (l : list st) : nat := match l with [] => 1 | r :: l' => S (B 3 r + go l') end) rs)
-  | SOr a rs => S (B 2 a + (fix go (l : list st) : nat := match l with [] => 1 | r :: l' => S (B 2 r + go l') end) rs)
-  | SCond c a b => S (B 1 c + B 1 a + B 0 b)
-  end.
-
-Definition B (l : nat) (t : st) : nat := Bof (own t) (prec t) l.
-Definition km (t : st) : nat := match t with SMul _ _ _ => pred (own t) | _ => S (B 6 t) end.
-Definition ka (t : st) : nat := match t with SAdd _ _ _ => pred (own t) | _ => S (B 5 t) end.
-Definition kr (t : st) : nat := match t with SRel _ _ _ => pred (own t) | _ => S (B 4 t) end.
-Fixpoint chain_b (l : nat) (rs : list st) : nat :=
-  match rs with [] => 1 | r :: rs' => S (B l r + chain_b l rs') end.
-
-Lemma own_mul op a b : own (SMul op a b) = S (km a + S (B 6 b)).
-Proof. reflexivity. Qed.
-Lemma own_add op a b : own (SAdd op a b) = S (ka a + S (B 5 b)).
-Proof. reflexivity. Qed.
-Lemma own_rel op a b : own (SRel op a b) = S (kr a + S (B 4 b)).
-Proof. reflexivity. Qed.
-Lemma own_and a rs : own (SAnd a rs) = S (B 3 a + chain_b 3 rs).
-Proof. cbn [own]. do 2 f_equal. induction rs as [|r rs IH]; [reflexivity|]. cbn [chain_b]. now rewrite <- IH. Qed.
-Lemma own_or a rs : own (SOr a rs) = S (B 2 a + chain_b 2 rs).
-Proof. cbn [own]. do 2 f_equal. induction rs as [|r rs IH]; [reflexivity|]. cbn [chain_b]. now rewrite <- IH. Qed.
-
-Definition BPar (t : st) : Prop :=
-  forall l, l <= 7 -> forall rest, stops l rest ->
-  evn (B l t) (fun f => p_at l f (tk_at l t ++ rest)) (POk (ast t) rest).
-Definition BKmul (t : st) : Prop := forall R X n2, stops 6 R ->
-  evn n2 (fun f => p_mul_loop f (ast t) R) X -> evn (km t + n2) (fun f => p_mul f (tk_at 5 t ++ R)) X.
-Definition BKadd (t : st) : Prop := forall R X n2, stops 5 R ->
-  evn n2 (fun f => p_add_loop f (ast t) R) X -> evn (ka t + n2) (fun f => p_add f (tk_at 4 t ++ R)) X.
-Definition BKrel (t : st) : Prop := forall R X n2, stops 4 R ->
-  evn n2 (fun f => p_rel_loop f (ast t) R) X -> evn (kr t + n2) (fun f => p_rel f (tk_at 3 t ++ R)) X.
-
-Lemma B_low l t : l <= prec t -> B l t = own t + 2 * (prec t - l).
-Proof. intros H. unfold B, Bof. destruct (Nat.leb_spec l (prec t)); [reflexivity|lia]. Qed.
-Lemma B_high l t : prec t < l -> B l t = own t + 2 * prec t + 2 + 2 * (7 - l).
-Proof. intros H. unfold B, Bof. destruct (Nat.leb_spec l (prec t)); [lia|reflexivity]. Qed.
-
-Lemma bpar_all t : (forall rest, stops (prec t) rest ->
-                      evn (own t) (fun f => p_at (prec t) f (raw t ++ rest)) (POk (ast t) rest)) ->
-  (prec t = 7 -> plain_head (raw t)) -> BPar t.
-Proof.
-  intros Hown Hh.
-  assert (P7 : prec t <= 7) by (destruct t; cbn; lia).
-  assert (Hlow : forall l, l <= prec t -> forall rest, stops l rest ->
-                 evn (own t + 2 * (prec t - l)) (fun f => p_at l f (raw t ++ rest)) (POk (ast t) rest)).
-  { intros l Hl rest Hs. apply (bdown (prec t - l) (prec t) l); auto; try lia.
-    eapply Hown, stops_le; [|exact Hs]; exact Hl. }
-  intros l Hl rest Hs. destruct (Nat.le_gt_cases l (prec t)) as [H|H].
-  - rewrite (tk_raw l t H), (B_low l t H). now apply Hlow.
-  - rewrite (tk_paren l t H), (B_high l t H).
-    assert (S7 : stops 7 rest) by (eapply stops_le; [|exact Hs]; lia).
-    assert (M : evn (S (S (own t + 2 * prec t))) (fun f => p_member f ((TLParen :: raw t ++ [TRParen]) ++ rest)) (POk (ast t) rest)).
-    { cbn [app]. rewrite <- app_assoc. cbn [app]. apply bmember_paren; [exact S7|].
-      pose proof (Hlow 0 ltac:(lia) (TRParen :: rest)) as H0. rewrite Nat.sub_0_r in H0. apply H0. cbn. auto. }
-    apply (evn_le (S (S (own t + 2 * prec t)) + 2 * (7 - l))); [lia|].
-    apply (bdown (7 - l) 7 l); auto; try lia. intros _ _. exact I.
-Qed.
-
-Lemma band_chain rs : Forall BPar rs -> forall acc rest, stops 2 rest ->
-  evn (chain_b 3 rs) (fun f => p_and_loop f acc (flat_map (fun r => TAndAnd :: tk_at 3 r) rs ++ rest))
-      (POk (logic_tree $"_&&_" (rev' (rev (map ast rs) ++ acc))) rest).
-Proof.
-  induction 1 as [|r rs Hr _ IH]; intros acc rest Hs.
-  - intros [|f] Hf; [cbn in Hf; lia|]. cbn [flat_map map rev app]. now apply and_loop_stop.
-  - cbn [flat_map app chain_b]. rewrite <- app_assoc.
-    assert (S3 : stops 3 (flat_map (fun r0 => TAndAnd :: tk_at 3 r0) rs ++ rest)).
-    { apply stops_chain; [reflexivity|cbn; lia|eapply stops_le; [|exact Hs]; lia]. }
-    pose proof (Hr 3 ltac:(lia) _ S3) as H1. pose proof (IH (ast r :: acc) rest Hs) as H2. cbn [p_at] in H1.
-    intros [|f] Hf; [lia|]. rewrite u_and_loop. rewrite H1 by lia. rewrite H2 by lia.
-    cbn [map rev]. now rewrite <- app_assoc.
-Qed.
-Lemma bor_chain rs : Forall BPar rs -> forall acc rest, stops 1 rest ->
-  evn (chain_b 2 rs) (fun f => p_or_loop f acc (flat_map (fun r => TOrOr :: tk_at 2 r) rs ++ rest))
-      (POk (logic_tree $"_||_" (rev' (rev (map ast rs) ++ acc))) rest).
-Proof.
-  induction 1 as [|r rs Hr _ IH]; intros acc rest Hs.
-  - intros [|f] Hf; [cbn in Hf; lia|]. cbn [flat_map map rev app]. now apply or_loop_stop.
-  - cbn [flat_map app chain_b]. rewrite <- app_assoc.
-    assert (S2 : stops 2 (flat_map (fun r0 => TOrOr :: tk_at 2 r0) rs ++ rest)).
-    { apply stops_chain; [reflexivity|cbn; lia|eapply stops_le; [|exact Hs]; lia]. }
-    pose proof (Hr 2 ltac:(lia) _ S2) as H1. pose proof (IH (ast r :: acc) rest Hs) as H2. cbn [p_at] in H1.
-    intros [|f] Hf; [lia|]. rewrite u_or_loop. rewrite H1 by lia. rewrite H2 by lia.
-    cbn [map rev]. now rewrite <- app_assoc.
-Qed.
-
-Lemma BKmul_from_par t : (match t with SMul _ _ _ => False | _ => True end) -> BPar t -> BKmul t.
-Proof.
-  intros Hp HP R X n2 Hs H2.
-  assert (Hprec : prec t <> 5) by (destruct t; cbn; try lia; contradiction).
-  rewrite (tk_at_skip 5 t Hprec). pose proof (HP 6 ltac:(lia) R Hs) as H1. cbn [p_at] in H1.
-  assert (Ek : km t = S (B 6 t)) by (destruct t; try reflexivity; contradiction). rewrite Ek.
-  intros [|f] Hf; [lia|]. rewrite u_mul, H1 by lia. apply H2. lia.
-Qed.
-Lemma BKadd_from_par t : (match t with SAdd _ _ _ => False | _ => True end) -> BPar t -> BKadd t.
-Proof.
-  intros Hp HP R X n2 Hs H2.
-  assert (Hprec : prec t <> 4) by (destruct t; cbn; try lia; contradiction).
-  rewrite (tk_at_skip 4 t Hprec). pose proof (HP 5 ltac:(lia) R Hs) as H1. cbn [p_at] in H1.
-  assert (Ek : ka t = S (B 5 t)) by (destruct t; try reflexivity; contradiction). rewrite Ek.
-  intros [|f] Hf; [lia|]. rewrite u_add, H1 by lia. apply H2. lia.
-Qed.
-Lemma BKrel_from_par t : (match t with SRel _ _ _ => False | _ => True end) -> BPar t -> BKrel t.
-Proof.
-  intros Hp HP R X n2 Hs H2.
-  assert (Hprec : prec t <> 3) by (destruct t; cbn; try lia; contradiction).
-  rewrite (tk_at_skip 3 t Hprec). pose proof (HP 4 ltac:(lia) R Hs) as H1. cbn [p_at] in H1.
-  assert (Ek : kr t = S (B 4 t)) by (destruct t; try reflexivity; contradiction). rewrite Ek.
-  intros [|f] Hf; [lia|]. rewrite u_rel, H1 by lia. apply H2. lia.
-Qed.
-
-Lemma km_mul op a b : km (SMul op a b) = km a + S (B 6 b).
-Proof. change (km (SMul op a b)) with (pred (own (SMul op a b))). rewrite own_mul. reflexivity. Qed.
-Lemma ka_add op a b : ka (SAdd op a b) = ka a + S (B 5 b).
-Proof. change (ka (SAdd op a b)) with (pred (own (SAdd op a b))). rewrite own_add. reflexivity. Qed.
-Lemma kr_rel op a b : kr (SRel op a b) = kr a + S (B 4 b).
-Proof. change (kr (SRel op a b)) with (pred (own (SRel op a b))). rewrite own_rel. reflexivity. Qed.
-
-Definition BGood (t : st) : Prop := BPar t /\ BKmul t /\ BKadd t /\ BKrel t.
-
-Ltac others HP :=
-  repeat split; [exact HP|apply BKmul_from_par|apply BKadd_from_par|apply BKrel_from_par]; auto; exact I.
-
-Theorem broundtrip_all t : wf_st t -> BGood t.
-Proof.
-  induction t using st_ind'; intros W; cbn [wf_st] in W.
-  - (* identifier *)
-    assert (HP : BPar (SId x)).
-    { apply bpar_all; [|intros _; exact I]. intros rest Hs. cbn [prec p_at raw app own]. now apply bmember_id. }
-    others HP.
-  - (* '!' run *)
-    destruct (IHt W) as (Pa & _).
-    assert (HP : BPar (SNot n t)).
-    { apply bpar_all; [|cbn; lia]. intros rest Hs. cbn [prec] in Hs. cbn [prec p_at raw]. fold (tk_at 7 t). rewrite <- app_assoc.
-      assert (S7 : stops 7 rest) by (eapply stops_le; [|exact Hs]; lia).
-      pose proof (Pa 7 (le_n 7) rest S7) as H1. cbn [p_at] in H1.
-      change (own (SNot n t)) with (S (B 7 t)).
-      intros [|f] Hf; [lia|]. cbn [repeat app]. rewrite u_unary_bang.
-      change (TBang :: repeat TBang n ++ tk_at 7 t ++ rest) with (repeat TBang (S n) ++ tk_at 7 t ++ rest).
-      rewrite (count_bangs (S n) _ (tk7_not_bang t rest)). rewrite H1 by lia. reflexivity. }
-    others HP.
-  - (* '-' run *)
-    destruct (IHt W) as (Pa & _).
-    assert (HP : BPar (SNeg n t)).
-    { apply bpar_all; [|cbn; lia]. intros rest Hs. cbn [prec] in Hs. cbn [prec p_at raw]. fold (tk_at 7 t). rewrite <- app_assoc.
-      assert (S7 : stops 7 rest) by (eapply stops_le; [|exact Hs]; lia).
-      pose proof (Pa 7 (le_n 7) rest S7) as H1. cbn [p_at] in H1.
-      change (own (SNeg n t)) with (S (B 7 t)).
-      intros [|f] Hf; [lia|]. cbn [repeat app]. rewrite u_unary_minus, tk7_not_number.
-      change (TMinus :: repeat TMinus n ++ tk_at 7 t ++ rest) with (repeat TMinus (S n) ++ tk_at 7 t ++ rest).
-      rewrite (count_minus (S n) _ (tk7_not_minus t rest)). rewrite H1 by lia. reflexivity. }
-    others HP.
-  - (* multiplicative *)
-    destruct W as (Wop & Wa & Wb). destruct (IHt1 Wa) as (_ & Ka & _). destruct (IHt2 Wb) as (Pb & _).
-    destruct (mulop_level op Wop) as [Os Ol]. destruct (mulop_name op) as [name|] eqn:En; [|congruence].
-    assert (HK : BKmul (SMul op t1 t2)).
-    { intros R X n2 Hs H2. rewrite (tk_raw 5 (SMul op t1 t2)) by (cbn; lia). cbn [raw].
-      fold (tk_at 5 t1). fold (tk_at 6 t2). rewrite <- !app_assoc. cbn [app].
-      replace (km (SMul op t1 t2) + n2) with (km t1 + S (B 6 t2 + n2)) by (rewrite km_mul; lia).
-      apply Ka; [apply stops_op; [exact Os|rewrite Ol; lia]|].
-      pose proof (Pb 6 ltac:(lia) R Hs) as H1. cbn [p_at] in H1.
-      intros [|f] Hf; [lia|]. rewrite u_mul_loop, En, H1 by lia.
-      cbn [ast] in H2. rewrite En in H2. cbn [opname] in H2. apply H2. lia. }
-    assert (HP : BPar (SMul op t1 t2)).
-    { apply bpar_all; [|cbn; lia]. intros rest Hs. cbn [prec] in Hs. cbn [prec p_at]. rewrite <- (tk_raw 5 (SMul op t1 t2)) by (cbn; lia).
-      replace (own (SMul op t1 t2)) with (km (SMul op t1 t2) + 1) by (rewrite km_mul, own_mul; lia).
-      apply HK; [eapply stops_le; [|exact Hs]; lia|]. intros [|f] Hf; [lia|]. now apply mul_loop_stop. }
-    repeat split; [exact HP|exact HK|apply BKadd_from_par|apply BKrel_from_par]; auto; exact I.
-  - (* additive *)
-    destruct W as (Wop & Wa & Wb). destruct (IHt1 Wa) as (_ & _ & Ka & _). destruct (IHt2 Wb) as (Pb & _).
-    destruct (addop_level op Wop) as [Os Ol]. destruct (addop_name op) as [name|] eqn:En; [|congruence].
-    assert (HK : BKadd (SAdd op t1 t2)).
-    { intros R X n2 Hs H2. rewrite (tk_raw 4 (SAdd op t1 t2)) by (cbn; lia). cbn [raw].
-      fold (tk_at 4 t1). fold (tk_at 5 t2). rewrite <- !app_assoc. cbn [app].
-      replace (ka (SAdd op t1 t2) + n2) with (ka t1 + S (B 5 t2 + n2)) by (rewrite ka_add; lia).
-      apply Ka; [apply stops_op; [exact Os|rewrite Ol; lia]|].
-      pose proof (Pb 5 ltac:(lia) R Hs) as H1. cbn [p_at] in H1.
-      intros [|f] Hf; [lia|]. rewrite u_add_loop, En, H1 by lia.
-      cbn [ast] in H2. rewrite En in H2. cbn [opname] in H2. apply H2. lia. }
-    assert (HP : BPar (SAdd op t1 t2)).
-    { apply bpar_all; [|cbn; lia]. intros rest Hs. cbn [prec] in Hs. cbn [prec p_at]. rewrite <- (tk_raw 4 (SAdd op t1 t2)) by (cbn; lia).
-      replace (own (SAdd op t1 t2)) with (ka (SAdd op t1 t2) + 1) by (rewrite ka_add, own_add; lia).
-      apply HK; [eapply stops_le; [|exact Hs]; lia|]. intros [|f] Hf; [lia|]. now apply add_loop_stop. }
-    repeat split; [exact HP|apply BKmul_from_par|exact HK|apply BKrel_from_par]; auto; exact I.
-  - (* relational *)
-    destruct W as (Wop & Wa & Wb). destruct (IHt1 Wa) as (_ & _ & _ & Ka). destruct (IHt2 Wb) as (Pb & _).
-    destruct (relop_level op Wop) as [Os Ol]. destruct (relop_name op) as [name|] eqn:En; [|congruence].
-    assert (HK : BKrel (SRel op t1 t2)).
-    { intros R X n2 Hs H2. rewrite (tk_raw 3 (SRel op t1 t2)) by (cbn; lia). cbn [raw].
-      fold (tk_at 3 t1). fold (tk_at 4 t2). rewrite <- !app_assoc. cbn [app].
-      replace (kr (SRel op t1 t2) + n2) with (kr t1 + S (B 4 t2 + n2)) by (rewrite kr_rel; lia).
-      apply Ka; [apply stops_op; [exact Os|rewrite Ol; lia]|].
-      pose proof (Pb 4 ltac:(lia) R Hs) as H1. cbn [p_at] in H1.
-      intros [|f] Hf; [lia|]. rewrite u_rel_loop, En, H1 by lia.
-      cbn [ast] in H2. rewrite En in H2. cbn [opname] in H2. apply H2. lia. }
-    assert (HP : BPar (SRel op t1 t2)).
-    { apply bpar_all; [|cbn; lia]. intros rest Hs. cbn [prec] in Hs. cbn [prec p_at]. rewrite <- (tk_raw 3 (SRel op t1 t2)) by (cbn; lia).
-      replace (own (SRel op t1 t2)) with (kr (SRel op t1 t2) + 1) by (rewrite kr_rel, own_rel; lia).
-      apply HK; [eapply stops_le; [|exact Hs]; lia|]. intros [|f] Hf; [lia|]. now apply rel_loop_stop. }
-    repeat split; [exact HP|apply BKmul_from_par|apply BKadd_from_par|exact HK]; auto; exact I.
-  - (* && chain *)
-    destruct W as (Wa & Wne & Wrs). destruct (IHt Wa) as (Pa & _).
-    assert (Prs : Forall BPar rs).
-    { clear Wne. induction H as [|r rs Hr _ IH]; [constructor|]. destruct Wrs as [Wr Wrs].
-      constructor; [exact (proj1 (Hr Wr))|exact (IH Wrs)]. }
-    assert (HP : BPar (SAnd t rs)).
-    { apply bpar_all; [|cbn; lia]. intros rest Hs. cbn [prec] in Hs. cbn [prec p_at]. rewrite raw_and, <- app_assoc, own_and.
-      assert (S3 : stops 3 (flat_map (fun r => TAndAnd :: tk_at 3 r) rs ++ rest)).
-      { apply stops_chain; [reflexivity|cbn; lia|eapply stops_le; [|exact Hs]; lia]. }
-      pose proof (Pa 3 ltac:(lia) _ S3) as H1. cbn [p_at] in H1.
-      pose proof (band_chain rs Prs [ast t] rest Hs) as H2.
-      intros [|f] Hf; [lia|]. rewrite u_and, H1 by lia. rewrite H2 by lia.
-      rewrite ast_and, rev'_rev, rev_app_distr, rev_involutive. reflexivity. }
-    others HP.
-  - (* || chain *)
-    destruct W as (Wa & Wne & Wrs). destruct (IHt Wa) as (Pa & _).
-    assert (Prs : Forall BPar rs).
-    { clear Wne. induction H as [|r rs Hr _ IH]; [constructor|]. destruct Wrs as [Wr Wrs].
-      constructor; [exact (proj1 (Hr Wr))|exact (IH Wrs)]. }
-    assert (HP : BPar (SOr t rs)).
-    { apply bpar_all; [|cbn; lia]. intros rest Hs. cbn [prec] in Hs. cbn [prec p_at]. rewrite raw_or, <- app_assoc, own_or.
-      assert (S2 : stops 2 (flat_map (fun r => TOrOr :: tk_at 2 r) rs ++ rest)).
-      { apply stops_chain; [reflexivity|cbn; lia|eapply stops_le; [|exact Hs]; lia]. }
-      pose proof (Pa 2 ltac:(lia) _ S2) as H1. cbn [p_at] in H1.
-      pose proof (bor_chain rs Prs [ast t] rest Hs) as H2.
-      intros [|f] Hf; [lia|]. rewrite u_or, H1 by lia. rewrite H2 by lia.
-      rewrite ast_or, rev'_rev, rev_app_distr, rev_involutive. reflexivity. }
-    others HP.
-  - (* conditional *)
-    destruct W as (Wc & Wa & Wb). destruct (IHt1 Wc) as (Pc & _). destruct (IHt2 Wa) as (Pa & _). destruct (IHt3 Wb) as (Pb & _).
-    assert (HP : BPar (SCond t1 t2 t3)).
-    { apply bpar_all; [|cbn; lia]. intros rest Hs. cbn [prec] in Hs. cbn [prec p_at raw].
-      fold (tk_at 1 t1). fold (tk_at 1 t2). rewrite <- !app_assoc. cbn [app].
-      pose proof (Pc 1 ltac:(lia) (TQuestion :: tk_at 1 t2 ++ TColon :: raw t3 ++ rest)) as H1.
-      pose proof (Pa 1 ltac:(lia) (TColon :: raw t3 ++ rest)) as H2.
-      pose proof (Pb 0 ltac:(lia) rest Hs) as H3. rewrite (tk_raw 0 t3) in H3 by lia.
-      cbn [p_at] in H1, H2, H3.
-      change (own (SCond t1 t2 t3)) with (S (B 1 t1 + B 1 t2 + B 0 t3)).
-      intros [|f] Hf; [lia|].
-      rewrite u_expr, H1 by (cbn; auto; lia). rewrite H2 by (cbn; auto; lia). rewrite H3 by lia. reflexivity. }
-    others HP.
-  - (* explicit parentheses *)
-    destruct (IHt W) as (Pa & _).
-    assert (HP : BPar (SParen t)).
-    { apply bpar_all; [|intros _; exact I]. intros rest Hs. cbn [prec] in Hs. cbn [prec p_at raw ast app].
-      rewrite <- app_assoc. cbn [app]. change (own (SParen t)) with (S (S (B 0 t))). apply bmember_paren; [exact Hs|].
-      pose proof (Pa 0 ltac:(lia) (TRParen :: rest)) as H0. rewrite (tk_raw 0 t) in H0 by lia. apply H0. cbn. auto. }
-    others HP.
-Qed.
-
-(** ** The bounds fit the parser's own fuel *)
-Definition Iv (t : st) : Prop := own t + 2 * prec t <= 16 * length (raw t).
-
-Lemma B_fit l t : Iv t -> l <= 7 -> B l t + 2 * l <= 16 * length (tk_at l t).
-Proof.
-  intros HI Hl. unfold Iv in HI. destruct (Nat.le_gt_cases l (prec t)) as [H|H].
-  - rewrite (B_low l t H), (tk_raw l t H). lia.
-  - rewrite (B_high l t H), (tk_paren l t H). cbn [length]. rewrite app_length. cbn [length]. lia.
-Qed.
-
-Lemma km_fit t : Iv t -> (match t with SMul _ _ _ => False | _ => True end) -> km t + 11 <= 16 * length (tk_at 5 t).
-Proof.
-  intros HI Hn. assert (E : km t = S (B 6 t)) by (destruct t; try reflexivity; contradiction). rewrite E.
-  assert (Hp : prec t <> 5) by (destruct t; cbn; try lia; contradiction).
-  rewrite (tk_at_skip 5 t Hp). pose proof (B_fit 6 t HI ltac:(lia)). lia.
-Qed.
-Lemma ka_fit t : Iv t -> (match t with SAdd _ _ _ => False | _ => True end) -> ka t + 9 <= 16 * length (tk_at 4 t).
-Proof.
-  intros HI Hn. assert (E : ka t = S (B 5 t)) by (destruct t; try reflexivity; contradiction). rewrite E.
-  assert (Hp : prec t <> 4) by (destruct t; cbn; try lia; contradiction).
-  rewrite (tk_at_skip 4 t Hp). pose proof (B_fit 5 t HI ltac:(lia)). lia.
-Qed.
-Lemma kr_fit t : Iv t -> (match t with SRel _ _ _ => False | _ => True end) -> kr t + 7 <= 16 * length (tk_at 3 t).
-Proof.
-  intros HI Hn. assert (E : kr t = S (B 4 t)) by (destruct t; try reflexivity; contradiction). rewrite E.
-  assert (Hp : prec t <> 3) by (destruct t; cbn; try lia; contradiction).
-  rewrite (tk_at_skip 3 t Hp). pose proof (B_fit 4 t HI ltac:(lia)). lia.
-Qed.
-
-Definition Fit (t : st) : Prop :=
-  Iv t /\ km t + 11 <= 16 * length (tk_at 5 t) /\ ka t + 9 <= 16 * length (tk_at 4 t) /\ kr t + 7 <= 16 * length (tk_at 3 t).
-
-Lemma chain_fit l tk0 rs : l <= 7 -> Forall Iv rs ->
-  chain_b l rs <= 16 * length (flat_map (fun r => tk0 :: tk_at l r) rs) + 1.
-Proof.
-  intros Hl. induction 1 as [|r rs Hr _ IH]; cbn [chain_b flat_map app length]; [lia|].
-  rewrite app_length. pose proof (B_fit l r Hr Hl). lia.
-Qed.
-
-Theorem fit_all t : Fit t.
-Proof.
-  induction t using st_ind'; unfold Fit.
-  - assert (HI : Iv (SId x)) by (unfold Iv; cbn; lia).
-    split; [exact HI|split; [apply km_fit|split; [apply ka_fit|apply kr_fit]]]; auto; exact I.
-  - destruct IHt as (Ia & _).
-    assert (HI : Iv (SNot n t)).
-    { unfold Iv. change (own (SNot n t)) with (S (B 7 t)). cbn [prec raw]. fold (tk_at 7 t).
-      rewrite app_length, repeat_length. pose proof (B_fit 7 t Ia (le_n 7)). lia. }
-    split; [exact HI|split; [apply km_fit|split; [apply ka_fit|apply kr_fit]]]; auto; exact I.
-  - destruct IHt as (Ia & _).
-    assert (HI : Iv (SNeg n t)).
-    { unfold Iv. change (own (SNeg n t)) with (S (B 7 t)). cbn [prec raw]. fold (tk_at 7 t).
-      rewrite app_length, repeat_length. pose proof (B_fit 7 t Ia (le_n 7)). lia. }
-    split; [exact HI|split; [apply km_fit|split; [apply ka_fit|apply kr_fit]]]; auto; exact I.
-  - destruct IHt1 as (Ia & Ka & _). destruct IHt2 as (Ib & _).
-    assert (HK : km (SMul op t1 t2) + 11 <= 16 * length (tk_at 5 (SMul op t1 t2))).
-    { rewrite km_mul, (tk_raw 5 (SMul op t1 t2)) by (cbn; lia). cbn [raw]. fold (tk_at 5 t1). fold (tk_at 6 t2).
-      rewrite !app_length. cbn [length]. pose proof (B_fit 6 t2 Ib ltac:(lia)). lia. }
-    assert (HI : Iv (SMul op t1 t2)).
-    { unfold Iv. rewrite own_mul. rewrite km_mul in HK. rewrite (tk_raw 5 (SMul op t1 t2)) in HK by (cbn; lia). cbn [prec]. lia. }
-    split; [exact HI|split; [exact HK|split; [apply ka_fit|apply kr_fit]]]; auto; exact I.
-  - destruct IHt1 as (Ia & _ & Ka & _). destruct IHt2 as (Ib & _).
-    assert (HK : ka (SAdd op t1 t2) + 9 <= 16 * length (tk_at 4 (SAdd op t1 t2))).
-    { rewrite ka_add, (tk_raw 4 (SAdd op t1 t2)) by (cbn; lia). cbn [raw]. fold (tk_at 4 t1). fold (tk_at 5 t2).
-      rewrite !app_length. cbn [length]. pose proof (B_fit 5 t2 Ib ltac:(lia)). lia. }
-    assert (HI : Iv (SAdd op t1 t2)).
-    { unfold Iv. rewrite own_add. rewrite ka_add in HK. rewrite (tk_raw 4 (SAdd op t1 t2)) in HK by (cbn; lia). cbn [prec]. lia. }
-    split; [exact HI|split; [apply km_fit|split; [exact HK|apply kr_fit]]]; auto; exact I.
-  - destruct IHt1 as (Ia & _ & _ & Ka). destruct IHt2 as (Ib & _).
-    assert (HK : kr (SRel op t1 t2) + 7 <= 16 * length (tk_at 3 (SRel op t1 t2))).
-    { rewrite kr_rel, (tk_raw 3 (SRel op t1 t2)) by (cbn; lia). cbn [raw]. fold (tk_at 3 t1). fold (tk_at 4 t2).
-      rewrite !app_length. cbn [length]. pose proof (B_fit 4 t2 Ib ltac:(lia)). lia. }
-    assert (HI : Iv (SRel op t1 t2)).
-    { unfold Iv. rewrite own_rel. rewrite kr_rel in HK. rewrite (tk_raw 3 (SRel op t1 t2)) in HK by (cbn; lia). cbn [prec]. lia. }
-    split; [exact HI|split; [apply km_fit|split; [apply ka_fit|exact HK]]]; auto; exact I.
-  - destruct IHt as (Ia & _).
-    assert (Irs : Forall Iv rs) by (eapply Forall_impl; [|exact H]; intros r Hr; exact (proj1 Hr)).
-    assert (HI : Iv (SAnd t rs)).
-    { unfold Iv. rewrite own_and, raw_and, app_length. cbn [prec].
-      pose proof (B_fit 3 t Ia ltac:(lia)). pose proof (chain_fit 3 TAndAnd rs ltac:(lia) Irs). lia. }
-    split; [exact HI|split; [apply km_fit|split; [apply ka_fit|apply kr_fit]]]; auto; exact I.
-  - destruct IHt as (Ia & _).
-    assert (Irs : Forall Iv rs) by (eapply Forall_impl; [|exact H]; intros r Hr; exact (proj1 Hr)).
-    assert (HI : Iv (SOr t rs)).
-    { unfold Iv. rewrite own_or, raw_or, app_length. cbn [prec].
-      pose proof (B_fit 2 t Ia ltac:(lia)). pose proof (chain_fit 2 TOrOr rs ltac:(lia) Irs). lia. }
-    split; [exact HI|split; [apply km_fit|split; [apply ka_fit|apply kr_fit]]]; auto; exact I.
-  - destruct IHt1 as (Ic & _). destruct IHt2 as (Ia & _). destruct IHt3 as (Ib & _).
-    assert (HI : Iv (SCond t1 t2 t3)).
-    { unfold Iv. change (own (SCond t1 t2 t3)) with (S (B 1 t1 + B 1 t2 + B 0 t3)). cbn [prec raw].
-      fold (tk_at 1 t1). fold (tk_at 1 t2). rewrite !app_length. cbn [length].
-      pose proof (B_fit 1 t1 Ic ltac:(lia)). pose proof (B_fit 1 t2 Ia ltac:(lia)). pose proof (B_fit 0 t3 Ib ltac:(lia)).
-      rewrite (tk_raw 0 t3) in H1 by lia. lia. }
-    split; [exact HI|split; [apply km_fit|split; [apply ka_fit|apply kr_fit]]]; auto; exact I.
-  - destruct IHt as (Ia & _).
-    assert (HI : Iv (SParen t)).
-    { unfold Iv. change (own (SParen t)) with (S (S (B 0 t))). cbn [prec raw length]. rewrite app_length. cbn [length].
-      pose proof (B_fit 0 t Ia ltac:(lia)). rewrite (tk_raw 0 t) in H by lia. lia. }
-    split; [exact HI|split; [apply km_fit|split; [apply ka_fit|apply kr_fit]]]; auto; exact I.
-Qed.
-
-(** ** The round trip with the parser's own fuel *)
 Theorem parse_tokens_roundtrip t : wf_st t -> parse_tokens (raw t) = CExpr (ast t).
 Proof.
-  intros W. destruct (broundtrip_all t W) as (HP & _).
-  pose proof (HP 0 ltac:(lia) [] I) as H. cbn [p_at] in H. rewrite (tk_raw 0 t) in H by lia. rewrite app_nil_r in H.
-  unfold parse_tokens. rewrite H; [reflexivity|].
-  destruct (fit_all t) as (HI & _). unfold Iv in HI. rewrite (B_low 0 t) by lia. unfold parse_fuel. lia.
+  intros W. apply parse_tokens_of_ev. destruct (parse_roundtrip t W) as [n H]. exists n. exact H.
 Qed.
